@@ -81,7 +81,7 @@ def gen_params(rng):
              service_scan_cost=rng.choice([1, 0, 2]), os_scan_cost=rng.choice([1, 0.5]),
              subnet_scan_cost=rng.choice([1, 3]), process_scan_cost=rng.choice([1, 0.25]),
              uniform=rng.random() < 0.35, alpha_H=rng.choice([0.5, 1.0, 2.0, 5.0]),
-             alpha_V=rng.choice([0.5, 1.0, 2.0, 5.0]), lambda_V=rng.choice([0.5, 1.0, 3.0]),
+             alpha_V=rng.choice([0.5, 1.0, 2.0, 5.0]), lambda_V=rng.choice([0.5, 1.0, 3.0, 0.5, 1.0, 3.0, 1e-20]),
              restrictiveness=rng.randint(1, 6), random_goal=rng.random() < 0.5,
              base_host_value=rng.choice([0, 1, 1, 0.5]), host_discovery_value=rng.choice([0, 1, 2, 0.25]),
              step_limit=rng.choice([None, 100, 1000]), seed=rng.randint(0, 10 ** 6))
